@@ -40,6 +40,7 @@ Inductive event :=
 | Flip (switch:string) (on:bool)   (* a process-global switch is set *)
 | Reg (on:bool)            (* custom SPARQL functions registered / unregistered *)
 | Noted (what:string)      (* an effect-free step that may still fail, e.g. the validation loop *)
+| Forget                   (* the id(graph)-keyed module caches are emptied *)
 | Raised (cls:string).
 
 Record state := {
@@ -116,6 +117,10 @@ Definition call_summary (f:string) (args:list value) (st:state) : eres :=
   | "apply_functions", _ => finish VNone (emit st (Reg true))
   | "unapply_functions", _ => EV VNone (emit st (Reg false))
   | "validate_shapes", _ => finish VNone (emit st (Noted "validate_shapes"))
+  | "rdflib_bool_patch", _ => EV VNone (emit st (Flip "rdflib_bool" true))
+  | "rdflib_bool_unpatch", _ => EV VNone (emit st (Flip "rdflib_bool" false))
+  | "load_from_source", _ => finish VOpaque (emit st (Noted "load_from_source"))
+  | "_forget_cached_graph_contents", _ => EV VNone (emit st Forget)
   | "URIRef", _ => EV VOpaque st
   | _, _ => ES ("call not in the white-list: " ++ f)
   end.
